@@ -15,7 +15,7 @@ func ZZ_C14_SpzRead() {
 	stream := append(append([]byte{}, hb...), body...)
 	cut := zz.Int("cut", 0, len(stream)-1)
 	zz.Reach("file")
-	_, err := Read(&zz.Buf{B: stream, Limit: cut})
+	_, err := Read(zz.GzipStream(&zz.Buf{B: stream, Limit: cut}))
 	zz.Assert(err != nil, "a strict prefix of an SPZ stream was accepted")
 	zz.Reach("read")
 }
